@@ -125,6 +125,11 @@ def st_idiom(draw, allow_load_q=False):
             info["sdk_mov"] = True
             idxs = [r[1:] for r in qregs if r[1:] not in ("1", "2", "5", "6", "9", "10")]
             ma, mb = (f"R{idxs[0]}", f"R{idxs[1]}") if len(idxs) >= 2 and draw(st.booleans()) else ("R7", "R8")  # same indices as qubit registers in use, or not
+            if draw(st.integers(0, 2)) == 0:
+                # the target named by a Q register (its value known to the transpiler), the source by a classical one (unknown)
+                tq = "Q0" if QL != "Q0" and draw(st.booleans()) else ra
+                return [f"set Q9 {nq}", "qalloc Q9", "init Q9", f"set {ma} 0", f"set {tq} {nq}", f"mov {ma} {tq}",
+                        f"set {ra} {nq}", f"{draw(st.sampled_from(GATES1))} {ra}", f"set {ra} 0", "init " + ra]
             return [f"set Q9 {nq}", "qalloc Q9", "init Q9", f"set {ma} 0", f"set {mb} 0", f"set R9 {nq}", f"add {mb} {mb} R9", f"mov {ma} {mb}",
                     f"set {ra} {nq}", f"{draw(st.sampled_from(GATES1))} {ra}", f"set {ra} 0", "init " + ra]
         if k == 8:
@@ -170,7 +175,19 @@ def st_idiom(draw, allow_load_q=False):
                 r = loop_regs.pop()
                 le, lx = new_label("LOOP"), new_label("LOOP_EXIT")
                 n = draw(st.integers(0, 3))
-                out += [f"set {r} 0", f"{le}:", f"beq {r} {n} {lx}"] + block(depth + 1) + [f"add {r} {r} 1", f"jmp {le}", f"{lx}:"]
+                head, first = [], []
+                if nq >= 3 and draw(st.integers(0, 1)) == 0 and len(qregs) >= 3:
+                    # a qubit register written before the loop, read at the top of every iteration, and not mentioned again after a
+                    # carbon-carbon gate further down the body
+                    rp = "Q0" if QL != "Q0" and draw(st.booleans()) else draw(st.sampled_from(qregs))
+                    oth = [q_ for q_ in qregs if q_ != rp]
+                    x, y = draw(st.sampled_from([(1, 2), (2, 1)]))
+                    head = [f"set {rp} {draw(st.integers(1, nq - 1))}"]
+                    n = draw(st.integers(2, 3))  # the value has to survive into a second iteration
+                    first = [f"{draw(st.sampled_from(GATES1))} {rp}", f"set {oth[0]} {x}", f"set {oth[1]} {y}", f"{draw(st.sampled_from(['cnot', 'cphase']))} {oth[0]} {oth[1]}"]
+                    info["cc"] = True
+                    info["kept_across_loop"] = True
+                out += head + [f"set {r} 0", f"{le}:", f"beq {r} {n} {lx}"] + first + (block(depth + 1) if not first or draw(st.booleans()) else []) + [f"add {r} {r} 1", f"jmp {le}", f"{lx}:"]
                 loop_regs.append(r)
             else:
                 out += gate_lines()
@@ -379,7 +396,7 @@ def shard(ctx: Ctx) -> None:
             return
         i = case["info"]
         nt = i["cc"] or i["end_label"] or i["ifs"] > 0
-        labels = ["idiom", f"nq:{case['nq']}", "debug" if case["debug"] else "nodebug"] + [k for k in ("cc", "end_label", "stress", "label_at_0", "load_single", "full16", "sdk_mov", "same_index_classical_set", "realloc", "kept_across_if") if i.get(k)] + (["loop"] if i["loops"] else []) + (["if"] if i["ifs"] else [])
+        labels = ["idiom", f"nq:{case['nq']}", "debug" if case["debug"] else "nodebug"] + [k for k in ("cc", "end_label", "stress", "label_at_0", "load_single", "full16", "sdk_mov", "same_index_classical_set", "realloc", "kept_across_if", "kept_across_loop") if i.get(k)] + (["loop"] if i["loops"] else []) + (["if"] if i["ifs"] else [])
         stt.case(str(case.get("prologue")) + case["text"] + str(case["outcomes"]) + str(case["debug"]), nt, labels, sample={"text": case["text"], "debug": case["debug"]} if len(case["text"]) < 700 else None)
 
     allow = KF_LOAD not in ctx.open_findings
